@@ -470,6 +470,7 @@ type Legacy struct {
 	FirstWithHead []byte
 	// HoldPreamble: (set before OpenIn) do not send the preamble after the 200; SendPreamble does it later.
 	HoldPreamble bool
+	preambleSent bool
 	inRaw        *net.TCPConn
 	id       string
 	wmu      sync.Mutex
@@ -534,7 +535,7 @@ func OpenInOnly(t Target, connID string) (*Legacy, error) {
 
 // AdoptIn takes over the RDG_IN_DATA connection that other opened (for the same connection id).
 func (l *Legacy) AdoptIn(other *Legacy) {
-	l.in, l.inRaw, l.inEOF, l.InHead = other.in, other.inRaw, other.inEOF, other.InHead
+	l.in, l.inRaw, l.inEOF, l.InHead, l.preambleSent = other.in, other.inRaw, other.inEOF, other.InHead, other.preambleSent
 	other.in, other.inRaw = nil, nil
 }
 
@@ -570,6 +571,7 @@ func (l *Legacy) OpenIn(t Target, connID string) error {
 	br := bufio.NewReader(c)
 	// An accepting gateway answers at once. A refusing one (no hijack) first tries to read the rest of the
 	// chunked request body, so end the body if nothing has arrived after a short while.
+	endedEarly := false
 	c.SetReadDeadline(time.Now().Add(300 * time.Millisecond))
 	if _, perr := br.Peek(1); perr != nil {
 		if ne, ok := perr.(net.Error); !ok || !ne.Timeout() {
@@ -577,6 +579,7 @@ func (l *Legacy) OpenIn(t Target, connID string) error {
 			return perr
 		}
 		c.Write([]byte("0\r\n\r\n"))
+		endedEarly = true
 	}
 	c.SetReadDeadline(time.Now().Add(30 * time.Second))
 	code, h, err := readResponseHead(br)
@@ -598,6 +601,16 @@ func (l *Legacy) OpenIn(t Target, connID string) error {
 		close(l.inEOF)
 	}()
 	l.inRaw = rawTCP(c)
+	if endedEarly {
+		// a busy gateway accepted after all, more than 300 ms later: the five bytes sent meanwhile are what its single raw
+		// read consumes - they are the preamble now, and a second one would reach the chunk reader as rubbish
+		l.preambleSent = true
+		if l.inRaw == nil || !procnet.WaitPeerDrained(l.inRaw, 30*time.Second) {
+			time.Sleep(30 * time.Millisecond)
+			l.SleepSync = true
+		}
+		return nil
+	}
 	if l.HoldPreamble {
 		return nil
 	}
@@ -606,6 +619,10 @@ func (l *Legacy) OpenIn(t Target, connID string) error {
 
 // SendPreamble sends the bytes the gateway's single raw read consumes and waits until they have been consumed.
 func (l *Legacy) SendPreamble() error {
+	if l.preambleSent {
+		return nil
+	}
+	l.preambleSent = true
 	c := l.in
 	pre := make([]byte, 64)
 	rand.Read(pre)
